@@ -101,6 +101,8 @@ def late_conn(ctx, verdict):
         for late_end in ('eof', 'reset'):
             for nlate in (1, 3):
                 cases.append('lc%d LATE %s %s %d' % (k, teardown, late_end, nlate)); k += 1
+    for teardown in ('close', 'eof', 'reset'):
+        cases.append('lc%d LATE %s eof 1 closeerr' % (k, teardown)); k += 1
     inp, out = '%s/late.in' % ctx.work, '%s/late.out' % ctx.work
     open(inp, 'w').write('\n'.join(cases) + '\n')
     rc, log, dt = vlib.go_test(ctx, 'multiplex', 'TestVerifC12LateConn', files=['c12_late_conn_test.go'], env=dict(VERIF_IN=inp, VERIF_OUT=out), timeout=300)
@@ -121,7 +123,7 @@ def late_conn(ctx, verdict):
     if bad:
         c, g = bad[0]
         f = c.split()
-        verdict.oracle_failure('late-connection-left-open', 'C12 oracle: after the session was torn down (%s) %s connection(s) were attached to it and then ended by the peer (%s): %s - every connection of a closed session must end up closed at this end' % (f[2], f[4], f[3], g),
+        verdict.oracle_failure('late-connection-left-open', 'C12 oracle: after the session was torn down (%s%s) %s connection(s) were attached to it and then ended by the peer (%s): %s - every connection of a closed session must end up closed at this end (early = connections of the pool closed by the teardown itself)' % (f[2], ', every Close of a pooled connection reporting an error' if len(f) > 5 else '', f[4], f[3], g),
                                dict(kind='late-conn', case=c, observed=g, failing_cases=len(bad), how='go test -run TestVerifC12LateConn with harness/multiplex/c12_late_conn_test.go (VERIF_IN = the case line)'))
     verdict.cov['late_connection_cases'] = dict(cases=len(cases), failures=len(bad))
     return broken
